@@ -1447,6 +1447,7 @@ func runC08(r *harness.Run) {
 	thorough := r.Thorough()
 	// load() with a reader function that itself loads, matches, sorts ...: cheap, runs first
 	reentrantFamily(r, "C08")
+	nilArgsFamily(r, "C08")
 	start := time.Now()
 	ctl := &c08Ctl{r: r, thorough: thorough}
 	if thorough {
